@@ -207,6 +207,112 @@ def r_mbc5(d):
     edit(p, f)
 R["12-mbc5-or-instead-of-add"] = r_mbc5
 
+# 13 rename the per-line overlap table
+def r_overlap(d):
+    for f in ["gameboy/ppu/ppu.go", "gameboy/ppu/render.go"]:
+        p = os.path.join(d, f)
+        s = open(p).read()
+        if "spriteOverlaps" in s:
+            open(p, "w").write(s.replace("spriteOverlaps", "objectOnLine"))
+R["13-rename-overlap-table"] = r_overlap
+# 14 the OAM-bug step behind a CPU helper
+def r_oamhelper(d):
+    edit(os.path.join(d, "gameboy/cpu/execution.go"), lambda s: s.replace("\tcpu.oam.Corrupt()\n\tcpu.currentCycle++", "\tcpu.applyOAMBug()\n\tcpu.currentCycle++") + """
+// applyOAMBug applies any OAM corruption armed by this machine cycle's accesses
+func (cpu *CPU) applyOAMBug() {
+	cpu.oam.Corrupt()
+}
+""")
+R["14-oam-bug-helper"] = r_oamhelper
+# 15 ADC / SBC in wider arithmetic
+def r_adc(d):
+    p = os.path.join(d, "gameboy/cpu/instructions.go")
+    def f(s):
+        i = s.index("func (cpu *CPU) adc(u8 uint8) {")
+        j = s.index("\n}\n", i) + 3
+        s = s[:i] + """func (cpu *CPU) adc(u8 uint8) {
+	carry := uint16(0)
+	if cpu.cf() {
+		carry = 1
+	}
+	sum := uint16(cpu.a) + uint16(u8) + carry
+	half := uint16(cpu.a&0x0f) + uint16(u8&0x0f) + carry
+	cpu.a = uint8(sum)
+	// [Z 0 H C]
+	cpu.setZf(cpu.a == 0)
+	cpu.setNf(false)
+	cpu.setHf(half > 0x0f)
+	cpu.setCf(sum > 0xff)
+}
+""" + s[j:]
+        return s
+    edit(p, f)
+R["15-adc-wide-arithmetic"] = r_adc
+# 16 JR through one conversion chain
+def r_jr(d):
+    edit(os.path.join(d, "gameboy/cpu/instructions.go"), rep("\ti8 := int8(cpu.u8a)\n\tcpu.pc = uint16(int16(cpu.pc) + int16(i8))", "\tcpu.pc += uint16(int16(int8(cpu.u8a)))"))
+R["16-jr-add-sign-extended"] = r_jr
+# 17 DAA in the other textbook order (high correction decided on the original A first)
+def r_daa(d):
+    p = os.path.join(d, "gameboy/cpu/instructions.go")
+    def f(s):
+        i = s.index("func (cpu *CPU) daa() {")
+        j = s.index("\n}\n", i) + 3
+        return s[:i] + """func (cpu *CPU) daa() {
+	a := int(cpu.a)
+	if cpu.nf() {
+		if cpu.hf() {
+			a -= 0x06
+		}
+		if cpu.cf() {
+			a -= 0x60
+		}
+	} else {
+		adjust := 0
+		if cpu.cf() || a > 0x99 {
+			adjust += 0x60
+			cpu.setCf(true)
+		}
+		if cpu.hf() || a&0x0f > 0x09 {
+			adjust += 0x06
+		}
+		a += adjust
+	}
+	cpu.a = uint8(a)
+	// [Z - 0 C]
+	cpu.setZf(cpu.a == 0)
+	cpu.setHf(false)
+}
+""" + s[j:]
+    edit(p, f)
+R["17-daa-other-order"] = r_daa
+# 18 the close query through a local and a method
+def r_close(d):
+    edit(os.path.join(d, "gameboy/display/display.go"), rep("\treturn d.window.ShouldClose()", "\tclosing := d.window.ShouldClose()\n\treturn closing"))
+R["18-close-query-local"] = r_close
+# 19 NR42 parsing moved into a helper of the channel
+def r_nr42(d):
+    p = os.path.join(d, "gameboy/audio/registers.go")
+    def f(s):
+        i = s.index("func (a *Audio) WriteNR42(value uint8) {")
+        j = s.index("\n}\n", i) + 3
+        body = s[i:j]
+        assert "a.ch4." in body
+        helper = body.replace("func (a *Audio) WriteNR42(value uint8) {", "func (a *Audio) setNoiseEnvelope(value uint8) {")
+        # keep the power gate in the register handler if there is one
+        return s[:i] + "func (a *Audio) WriteNR42(value uint8) {\n\ta.setNoiseEnvelope(value)\n}\n\n" + helper + s[j:]
+    edit(p, f)
+R["19-nr42-helper"] = r_nr42
+# 20 INC rr through the pair accessors
+def r_inc16(d):
+    edit(os.path.join(d, "gameboy/cpu/instructions.go"), rep("\tnew := uint16(*msb)<<8 + uint16(*lsb) + 1\n", "\tnew := (uint16(*msb)<<8 | uint16(*lsb)) + 1\n"))
+R["20-inc16-or"] = r_inc16
+
+# 21 the TMA-write flag cleared where it is consumed (was seeded change C12-2; behaviour-preserving since the D28 repair)
+def r_tmaflag(d):
+    edit(os.path.join(d, "gameboy/timer/timer.go"), lambda s: s.replace("\t\tif t.tmaWrite {\n\t\t\tt.tima = t.tma\n\t\t}\n\t}\n\tt.tmaWrite = false\n", "\t\tif t.tmaWrite {\n\t\t\tt.tima = t.tma\n\t\t\tt.tmaWrite = false\n\t\t}\n\t}\n"))
+R["21-tma-flag-cleared-where-consumed"] = r_tmaflag
+
 only = sys.argv[1:]
 for name, fn in R.items():
     if only and name not in only:
